@@ -71,7 +71,39 @@ func replayC03Calls(r *Run, o *Obligation) *ReplayResult {
 	return &ReplayResult{Confirmed: false, Input: fmt.Sprintf("bounded search over %d argument strings (HTML/JS-adversarial alphabet, length <= 3, plus known vectors), each as a string, in a slice and in a map", len(ins)), Detail: "REPLAY-NOT-REPRODUCED"}
 }
 
+// replayC03Contexts: sink obligations of the corpus directory script-contexts are replayed with the oracle that ships
+// with it (an independent JavaScript lexer over the rendered script, adversarial values).
+func replayC03Contexts(r *Run, o *Obligation) *ReplayResult {
+	if r.replayOut == nil {
+		r.replayOut = map[string]string{}
+	}
+	out, ok := r.replayOut["C03contexts"]
+	if !ok {
+		out, _ = r.runCorpusTest("x_script_contexts", "TestVerifReplayC03Contexts")
+		r.replayOut["C03contexts"] = out
+	}
+	input := "corpus/script-contexts rendered by the generated code with adversarial values, read by an independent JavaScript lexer"
+	if !strings.Contains(out, "SINKS-DONE") {
+		return &ReplayResult{Input: input, Detail: "REPLAY-NOT-REPRODUCED (replay harness error: " + firstLines(out, 4) + ")"}
+	}
+	name := strings.TrimPrefix(o.Name, "x_script_contexts.")
+	tmpl, rest, _ := strings.Cut(name, "$")
+	ord := ""
+	if k := strings.Index(rest, "#sink."); k >= 0 {
+		ord = rest[k+len("#sink."):]
+	}
+	for _, l := range strings.Split(out, "\n") {
+		if d, ok := strings.CutPrefix(l, "SINK "+tmpl+" "+ord+" CONFIRMED "); ok {
+			return &ReplayResult{Confirmed: true, Input: input, Detail: "REPLAY-CONFIRMED template " + tmpl + ": " + d}
+		}
+	}
+	return &ReplayResult{Input: input, Detail: "REPLAY-NOT-REPRODUCED the value written at this sink reads back as data for all adversarial values tried"}
+}
+
 func replayC03(r *Run, o *Obligation) *ReplayResult {
+	if strings.HasPrefix(o.Name, "x_script_contexts.") && strings.Contains(o.Name, "#sink.") {
+		return replayC03Contexts(r, o)
+	}
 	if strings.Contains(o.Name, "scriptElementParser") || strings.HasPrefix(o.Name, "v2.") || strings.HasPrefix(o.Name, "parser.") {
 		return replayC03Quotes(r)
 	}
